@@ -272,6 +272,8 @@ func init() {
 				Bounds: "the real upload handler closure of setupRouter (captured at route registration) with the routed parameter = 1..maxfree arbitrary symbolic bytes + .pcap/.pcapng; existing / new target file"},
 			{Pkg: "cmd/pkappa2", Func: "ZZ_C19_Upload", Desc: "names with an escaped separator", Quick: tier(map[string]int{"escapedsep": 1}),
 				Bounds: "routed parameter = 2 arbitrary bytes + one of %2F %2f %5C %252F %2E + 1 arbitrary byte + extension"},
+			{Pkg: "cmd/pkappa2", Func: "ZZ_C19_Overlap", Quick: tier(nil),
+				Bounds: "two uploads of one name, the second arriving while the first is receiving its body (the first body's first Read hands over): not both acknowledged, the stored capture is the acknowledged one's, queued once; engine: handler closures as goroutines over the modelled file system (O_EXCL), native: the real router with a real Manager"},
 			{Pkg: "cmd/pkappa2", Func: "ZZ_C19_Download", Quick: tier(map[string]int{"maxfree": 6}), Thorough: tier(map[string]int{"maxfree": 8}),
 				Desc: "no-native", Bounds: "the real download handler closure; parameter assumed to satisfy the route pattern (no / or \\)"},
 		},
